@@ -121,6 +121,21 @@ func (d *DB) Reopen() error {
 	return nil
 }
 
+// CloseBounded closes the database but gives up after timeout: zenodb's Close never returns when a table's
+// ingest goroutine is still handing an insert to a row store that has already stopped (DESIGN observations),
+// which happens when a database is closed before its ingestion has caught up. Returns false when it gave up
+// (the goroutines are abandoned; worker processes are recycled).
+func (d *DB) CloseBounded(timeout time.Duration) bool {
+	done := make(chan struct{})
+	go func() { d.DB.Close(); close(done) }()
+	select {
+	case <-done:
+		return true
+	case <-time.After(timeout):
+		return false
+	}
+}
+
 // Alter applies a changed set of table definitions to the running database.
 func (d *DB) Alter(tables []TableDef) error {
 	d.Tables = tables
